@@ -11,8 +11,10 @@ from vf.spec import ALIASERS, ObjectT, Program, Unspecified
 PROP = "C04"
 SHARDS = {"quick": 8, "thorough": 16}
 TIME_CAP = {"quick": 70, "thorough": 900}
-REQUIRED = ["agree", "programs", "json_only_walks", "omission:undefined", "omission:none", "omission:default", "omission:condition", "omission:unset",
-            "serialized_method_programs", "fields_set_programs", "typeless_calls", "check_type_calls", "fall_back_on_any_calls", "node:ObjectMethod", "node:SimpleObjectMethod"]
+REQUIRED = ["agree", "programs", "json_only_walks", "omission:undefined", "omission:none", "omission:default", "omission:condition", "omission:unset", "serialized_method_programs", "fields_set_programs", "typeless_calls", "check_type_calls", "fall_back_on_any_calls"]
+# compiled-tree node classes this workload is expected to reach: reported as coverage gaps when missing, never a verdict
+# (a renamed internal class must not turn into an alarm)
+EXPECTED_NODES = ["node:ObjectMethod", "node:SimpleObjectMethod"]
 RULE = ("C01 program space + serialized methods / properties (incl. Undefined / None results), skip(serialization_if / serialization_default), none_as_undefined, "
         "default_as_set / with_fields_set classes; values = images of model-valid data through deserialize (so every omission trigger occurs: value = default, None, Undefined, "
         "unset, condition true/false); options exclude_none x exclude_defaults x exclude_unset x additional_properties x aliaser, + check_type, fall_back_on_any, typeless serialize(v). "
